@@ -1498,6 +1498,41 @@ let set_plane g id q0 cs mc =
     g_minx = g.g_minx; g_minz = g.g_minz; g_maxx = g.g_maxx; g_maxz =
     g.g_maxz; g_cells = cs; g_planes = (upd_nth id (fun _ -> q0) g.g_planes) }
 
+(** val merge_cells :
+    cells_t -> nat -> nat -> nat -> nat -> nat -> nat -> nat -> nat -> nat ->
+    cells_t **)
+
+let merge_cells cs hit x0m y0m x0M y0M x1m y1m x1M y1M =
+  let expandLeft = Nat.ltb x1m x0m in
+  let minMinX = if expandLeft then x1m else x0m in
+  let maxMinX = if expandLeft then x0m else x1m in
+  let shrinkRight = Nat.ltb x1M x0M in
+  let minMaxX = if shrinkRight then x1M else x0M in
+  let maxMaxX = if shrinkRight then x0M else x1M in
+  let expandTop = Nat.ltb y1m y0m in
+  let minMinY = if expandTop then y1m else y0m in
+  let maxMinY = if expandTop then y0m else y1m in
+  let shrinkBottom = Nat.ltb y1M y0M in
+  let minMaxY = if shrinkBottom then y1M else y0M in
+  let maxMaxY = if shrinkBottom then y0M else y1M in
+  let add0 = fun l -> app l (hit :: []) in
+  let del = swap_remove hit in
+  let cs0 =
+    strip cs (range_incl minMinY maxMaxY) (range_excl minMinX maxMinX)
+      (if expandLeft then add0 else del)
+  in
+  let cs1 =
+    strip cs0 (range_incl minMinY maxMaxY)
+      (rev (range_incl (S minMaxX) maxMaxX))
+      (if shrinkRight then del else add0)
+  in
+  let cs2 =
+    strip cs1 (range_excl minMinY maxMinY) (range_incl maxMinX minMaxX)
+      (if expandTop then add0 else del)
+  in
+  strip cs2 (rev (range_incl (S minMaxY) maxMaxY))
+    (range_incl maxMinX minMaxX) (if shrinkBottom then del else add0)
+
 (** val merge_quads : grid -> nat -> quad -> grid **)
 
 let merge_quads g hit nq =
@@ -1510,39 +1545,9 @@ let merge_quads g hit nq =
     let (p1, y1M) = footprint g eq' in
     let (p2, x1M) = p1 in
     let (x1m, y1m) = p2 in
-    let expandLeft = Nat.ltb x1m x0m in
-    let minMinX = if expandLeft then x1m else x0m in
-    let maxMinX = if expandLeft then x0m else x1m in
-    let shrinkRight = Nat.ltb x1M x0M in
-    let minMaxX = if shrinkRight then x1M else x0M in
-    let maxMaxX = if shrinkRight then x0M else x1M in
-    let expandTop = Nat.ltb y1m y0m in
-    let minMinY = if expandTop then y1m else y0m in
-    let maxMinY = if expandTop then y0m else y1m in
-    let shrinkBottom = Nat.ltb y1M y0M in
-    let minMaxY = if shrinkBottom then y1M else y0M in
-    let maxMaxY = if shrinkBottom then y0M else y1M in
-    let add0 = fun l -> app l (hit :: []) in
-    let del = swap_remove hit in
-    let cs = g.g_cells in
-    let cs0 =
-      strip cs (range_incl minMinY maxMaxY) (range_excl minMinX maxMinX)
-        (if expandLeft then add0 else del)
-    in
-    let cs1 =
-      strip cs0 (range_incl minMinY maxMaxY)
-        (rev (range_incl (S minMaxX) maxMaxX))
-        (if shrinkRight then del else add0)
-    in
-    let cs2 =
-      strip cs1 (range_excl minMinY maxMinY) (range_incl maxMinX minMaxX)
-        (if expandTop then add0 else del)
-    in
-    let cs3 =
-      strip cs2 (rev (range_incl (S minMaxY) maxMaxY))
-        (range_incl maxMinX minMaxX) (if shrinkBottom then del else add0)
-    in
-    set_plane g hit eq' cs3 (N.add g.g_mergecount (Npos XH))
+    set_plane g hit eq'
+      (merge_cells g.g_cells hit x0m y0m x0M y0M x1m y1m x1M y1M)
+      (N.add g.g_mergecount (Npos XH))
   | None -> g
 
 type qref =
